@@ -107,13 +107,13 @@ _c07l_thorough = [("dbg", "lockstep", ["--refuse"], 16, ["--histories", "4000"])
 PLANS["C07"] = coll("C07", 150, 4000, ["alloc_refused", "fixed_full_rejected", "base_refused", "mut_grew_other_chunk", "commit_mut", "panicking_method_panicked_on_refusal", "typed_err_refused",
                                        "refusal_reported_as_error", "refusal_reported_by_unwinding", "state:base_refuses_everything"],
                     level="fault_enumeration", miri_h=1, extra_quick=[*_c07a["quick"], *_c07l_quick], extra_thorough=[*_c07a["thorough"][:5], *_c07l_thorough])
-PLANS["C08"] = coll("C08", 400, 10000, ["grew", "grew_realloc", "panic_matched_model", "zst_capacity", "fixed_full_rejected", "conversion", "drain_partial", "retain", "dedup",
+PLANS["C08"] = coll("C08", 400, 40000, ["grew", "grew_realloc", "panic_matched_model", "zst_capacity", "fixed_full_rejected", "conversion", "drain_partial", "retain", "dedup",
                                          "append_src:owned_slice::IntoIter", "append_src:owned_slice::Drain", "append_src:MutBumpVecRev", "append_src:&mut BumpVec", "ctor:3", "ctor:4", "ctor:5", "ctor:6", "dedup_by_non_equivalence"])
-PLANS["C09"] = coll("C09", 400, 10000, ["nonboundary_index", "invalid_utf8_input", "lossy_replaced", "str_panic_matched", "cstr", "split", "panic_injected"])
+PLANS["C09"] = coll("C09", 400, 40000, ["nonboundary_index", "invalid_utf8_input", "lossy_replaced", "str_panic_matched", "cstr", "split", "panic_injected", "string_split_parts_filled"])
 _c15a = arena("C15", 40, 1000)
-PLANS["C15"] = coll("C15", 300, 8000, ["commit_mut", "commit_mut_rev", "mut_dropped_unfinalised", "mut_grew_other_chunk", "prepared_commit", "mut_helper", "prepared_commit_after_chunk_switch", "mut_collection_via_dyn", "collection_on_unallocated_arena"],
+PLANS["C15"] = coll("C15", 300, 20000, ["commit_mut", "commit_mut_rev", "mut_dropped_unfinalised", "mut_grew_other_chunk", "prepared_commit", "mut_helper", "prepared_commit_after_chunk_switch", "mut_collection_via_dyn", "collection_on_unallocated_arena", "finalised_exactly_full"],
                     extra_quick=_c15a["quick"], extra_thorough=_c15a["thorough"][:4])
-PLANS["C16"] = coll("C16", 400, 10000, ["split", "merge_ok", "merge_rejected", "split_interior", "split_prefix", "split_suffix", "split_empty", "split_full", "into_flattened", "split_at_spare", "into_flattened_mut"])
+PLANS["C16"] = coll("C16", 400, 50000, ["split", "merge_ok", "merge_rejected", "split_interior", "split_prefix", "split_suffix", "split_empty", "split_full", "into_flattened", "split_at_spare", "into_flattened_mut"])
 
 PLANS["C17"] = dict(
     level="exploration",
